@@ -752,11 +752,22 @@ def rule_import(cx, tier):
     guards = {c.bb: c for c in _cache_guard_calls(cx, fn, True)}
     writes = []
     for c in fn.calls():
-        if c.short.rsplit("::", 1)[-1] in ("insert", "remove", "shift_remove", "swap_remove", "clear"):
+        if c.short.rsplit("::", 1)[-1] in ("insert", "remove", "shift_remove", "swap_remove", "clear", "retain", "drain",
+                                           "extract_if"):
             g = _recv_guard(cx, fn, c)
             if g is not None and g.bb in guards:
                 writes.append(c)
     require(len(writes) >= 3, f"R-IMPORT: expected ≥3 module_cache writes in run_import, found {len(writes)}")
+    # the cache also records which imports are in progress (None placeholders of the importers up the chain): a failed import
+    # removes its own entry, never entries in bulk
+    for c in writes:
+        if c.short.rsplit("::", 1)[-1] in ("clear", "retain", "drain", "extract_if"):
+            r.instances += 1
+            r.nontrivial += 1
+            r.add(Finding("R-IMPORT", fn.qual, "bulk:" + c.short.rsplit("::", 1)[-1],
+                          f"run_import removes entries from the module cache in bulk ({c.short.rsplit('::', 1)[-1]}): the None "
+                          f"placeholders of the modules that are still being imported further up the chain disappear with it, "
+                          f"so a cycle back to one of them is not detected and its top level runs again", fn.file, c.line))
 
     def is_none_insert(c):
         if not c.short.endswith("::insert") or len(c.args) < 3:
@@ -1244,4 +1255,112 @@ def rule_err_kind(cx, tier):
                               "rendering including the trace)", fn.file, c.line))
     r.analysed = {"errors_rendered_to_text": n}
     r.floor("to_string() calls on koto_runtime::Error", n, 1)
+    return r
+
+
+# ---------------------------------------------------------------------------------------------
+# R-ERR-SWALLOW (C04, C08): only a thrown `koto.unimplemented` may be replaced by a fallback
+
+def rule_err_swallow(cx, tier):
+    r = RuleResult("R-ERR-SWALLOW", "when a nested interpreter entry (an overloaded operator, @next, ..) fails, the error is "
+                                    "returned; the only paths on which execution goes on to something else (the fallback to "
+                                    "the right operand's @r.. entry) lie behind a test that the error's kind is KotoError (a "
+                                    "thrown koto.unimplemented): a timeout, or any runtime error, is never replaced by the "
+                                    "fallback's outcome")
+    F = cx.F
+    ALLOWED = ("pop_frame", "drop_in_place", "clone", "extend_trace", "branch", "from_residual", "deref", "is_a", "borrow",
+               "with_context", "fmt", "into", "from", "to_string", "truncate_registers", "as_ref", "eq", "type_id")
+    n = 0
+    for fn in F.fns.values():
+        if fn.crate.uname != "koto_runtime" or fn.derived or not fn.qual.startswith(VM):
+            continue
+        ex = [c for c in fn.calls() if c.short == VM + "execute_instructions"]
+        if not ex:
+            continue
+        cfg = cx.cfg(fn)
+        du = cx.du(fn)
+        exits = set(cfg.exits)
+        for c in ex:
+            # the Err edge
+            err_targets = set()
+            for b in fn.blocks:
+                if b.cleanup or b.term[0] != "switch":
+                    continue
+                l = op_base(b.term[1])
+                d = du.single_def(l) if l is not None else None
+                if d is not None and d[2] == "assign" and d[3][0] == "discr" and d[3][1][0] == c.dest[0] and not d[3][1][1]:
+                    # only the user's own test, right after the call: drop elaboration re-reads the discriminant later,
+                    # on paths the error never takes
+                    if b.idx != c.target and not (c.target is not None and fn.blocks[c.target].term[0] == "goto"
+                                                  and fn.blocks[c.target].term[1] == b.idx):
+                        continue
+                    for v, tb in b.term[2]:
+                        if v == 1:
+                            err_targets.add(tb)
+                    if not any(v == 1 for v, _ in b.term[2]) and any(v == 0 for v, _ in b.term[2]):
+                        err_targets.add(b.term[3])
+            if not err_targets:
+                continue
+            n += 1
+            r.instances += 1
+            r.nontrivial += 1
+            # kind tests: switches on the discriminant of `<something>.error`
+            koto_edges = set()
+            for b in fn.blocks:
+                if b.cleanup or b.term[0] != "switch":
+                    continue
+                l = op_base(b.term[1])
+                d = du.single_def(l) if l is not None else None
+                if d is not None and d[2] == "assign" and d[3][0] == "discr":
+                    pl = d[3][1]
+                    ad = fn.crate.tstr(pl[2]) if len(pl) > 2 and isinstance(pl[2], int) else ""
+                    is_kind = "ErrorKind" in ad
+                    if not is_kind:
+                        # discriminant((*_r)) with _r = &(x.error)
+                        dd = du.single_def(pl[0])
+                        if dd is not None and dd[2] == "assign" and dd[3][0] in ("ref", "rawptr") and \
+                                "error" in place_fields(dd[3][2]):
+                            is_kind = True
+                        if "error" in place_fields(pl):
+                            is_kind = True
+                    if not is_kind:
+                        continue
+                    for v, tb in b.term[2]:
+                        if F.variant_by_discr("koto_runtime::error::ErrorKind", v) == "KotoError":
+                            koto_edges.add((b.idx, tb))
+            # explore from the Err edge without taking a KotoError edge
+            seen = set()
+            work = list(err_targets)
+            offending = None
+            while work and offending is None:
+                b = work.pop()
+                if b in seen:
+                    continue
+                seen.add(b)
+                c2 = fn.call_at(b)
+                if c2 is not None:
+                    last = (c2.pretty or c2.short or "").rsplit("::", 1)[-1]
+                    if last not in ALLOWED:
+                        offending = c2
+                        break
+                if b in exits:
+                    continue
+                # once the return place has been written the function is on its way out: what follows are drops, and
+                # drop-flag switches whose infeasible edges lead back into the normal flow
+                if any(st[0] == "a" and st[1][0] == 0 for st in fn.blocks[b].stmts) or \
+                        (c2 is not None and c2.dest[0] == 0):
+                    continue
+                for s2 in cfg.succ[b]:
+                    if (b, s2) in koto_edges:
+                        continue
+                    work.append(s2)
+            r.sample({"fn": fn.qual, "entry_line": c.line, "non_koto_errors_only_returned": offending is None})
+            if offending is not None:
+                r.add(Finding("R-ERR-SWALLOW", fn.qual, "fallback-after-any-error:" + offending.short.rsplit("::", 1)[-1],
+                              f"after the nested entry at line {c.line} has failed, {offending.short.rsplit('::', 1)[-1]} (line "
+                              f"{offending.line}) can be reached without the error's kind having been tested for KotoError: an "
+                              f"error that is not a thrown koto.unimplemented -- a timeout, for instance -- is replaced by "
+                              f"the fallback's outcome and becomes catchable", fn.file, offending.line))
+    r.analysed = {"nested_entries_with_an_error_edge": n}
+    r.floor("nested interpreter entries with an error edge", n, 6)
     return r
